@@ -46,7 +46,7 @@ def follow_chain(run, case, via):
     """returns (pages, objects, terminated, problems)"""
     identity = {int(k): v for k, v in case['identity'].items()}
     code, start = case['code'], case['start']
-    repo.set_identity(identity)
+    repo.set_identity(identity, case.get('order'))
     objs, pages, oid = [], 0, start
     problems = []
     while True:
@@ -210,6 +210,11 @@ def run(run):
             starts.add(r.randrange(256))
             for start in sorted(starts):
                 case = {'identity': identity, 'code': code, 'start': start}
+                if i % 3 == 1:
+                    # the application configured its objects in some other order than ascending id
+                    order = sorted(identity)
+                    r.shuffle(order)
+                    case['order'] = order
                 ok, pages = check(run, case, via=(i % 4 == 0))
                 run.case(h64(repr(case)), pages >= 2 or len(populated) >= 2,
                          sample={'identity': {k: (len(v), type(v).__name__) for k, v in identity.items()}, 'code': code, 'start': start, 'pages': pages,
